@@ -72,6 +72,14 @@ structure Guards where
   /-- `_on_nack` splits an implicit-digest component off the Nack's name and `nack_interest` completes only
       the entries with that digest (false: looks the full name up and completes the whole node) -/
   nackByDigest : Bool
+  /-- `InterestTreeNode.nack_interest` fails a named entry only `if not entry.future.done()`.  The pending Interests of
+      this model are live ones; that a Nack arriving in the very loop turn in which its Interest ended otherwise
+      (cancelled / timed out, entry not yet unlinked) does not raise `InvalidStateError` out of `_receive` rests on
+      this guard (`Ndn.C06.safe`) -/
+  nackDoneGuard : Bool
+  /-- the same for a Data: legacy `satisfy` completes `if not entry.future.done()`; appv2 hands the Data to a task
+      whose `PendingIntEntry.satisfy` returns when the future is cancelled or done before completing it -/
+  satisfyDoneGuard : Bool
   deriving DecidableEq, Repr, Inhabited
 
 /-- one expressed Interest waiting in a node of the pending-Interest table -/
